@@ -1,8 +1,116 @@
-/- Model driver for C18 (stub: no ops yet). -/
+/-
+  Model driver for C18.  Ops:
+    wind T MT MHBITS LL N (kind arg)*N M (vbits hbits)*M
+        -> ok <statuses> <terrain> <metTerrain> <logLaw> <7 float bits> <powDen> <logDen> | <results>
+    tm <Class> (g<i> | s<i>)*     -> verdict per read (ok | stale | alias:<expr> | none | unset)
+    check <Class>                 -> the five table checks
+  Imports only Mathlib-free files.
+-/
 import Ladybug.DrvCore
+import Ladybug.Model.Lazy
+import Ladybug.Model.WindProfile
+import Ladybug.Gen.LazyDeps
+
+open Drv
 
 namespace DrvC18
-def handle (_toks : List String) : String := "bad-op"
+
+def ratToFloat (r : Rat) : Float := Float.ofInt r.num / Float.ofNat r.den
+
+def tpFloat (i : Nat) : Option (Float × Float × Float) :=
+  Gen.Wind.terrainParams[i]?.map fun p => (ratToFloat p.2.1, ratToFloat p.2.2.1, ratToFloat p.2.2.2)
+
+def fpow (x y : Float) : Float := Float.pow x y
+def flog (x : Float) : Float := Float.log x
+
+def terr? (s : String) : Option (Option Nat) :=
+  if s = "x" then some none else s.toNat?.map some
+
+def kindOf (n : Nat) : Option Wind.Kind := Wind.Kind.all[n]?
+
+def parseCalls : Nat → List String → Option (List (Wind.Call Float) × List String)
+  | 0, rest => some ([], rest)
+  | n + 1, k :: a :: rest => do
+    let kind ← k.toNat? >>= kindOf
+    let call ← match kind with
+      | .terrain | .metTerrain => (fun t => (⟨kind, 0, t, false⟩ : Wind.Call Float)) <$> terr? a
+      | .logLaw => (fun b => (⟨kind, 0, none, b⟩ : Wind.Call Float)) <$> bool? a
+      | _ => (fun f => (⟨kind, f, none, false⟩ : Wind.Call Float)) <$> floatBits? a
+    let (cs, rest') ← parseCalls n rest
+    pure (call :: cs, rest')
+  | _, _ => none
+
+def parseQueries : Nat → List String → Option (List (Float × Float))
+  | 0, [] => some []
+  | n + 1, v :: h :: rest => do
+    let v ← floatBits? v
+    let h ← floatBits? h
+    let qs ← parseQueries n rest
+    pure ((v, h) :: qs)
+  | _, _ => none
+
+def showErr : Wind.Err → String
+  | .value => "err:value" | .assert => "err:assert" | .zero => "err:zero"
+
+/-- run the calls, recording which were rejected -/
+def runCalls (s : Wind.St Float) : List (Wind.Call Float) → String × Wind.St Float
+  | [] => ("", s)
+  | x :: xs =>
+    match s.set fpow flog tpFloat Wind.genTable x with
+    | .ok s' => let r := runCalls s' xs; ("0" ++ r.1, r.2)
+    | .error .assert => let r := runCalls s xs; ("a" ++ r.1, r.2)
+    | .error _ => let r := runCalls s xs; ("v" ++ r.1, r.2)
+
+def wind (toks : List String) : String :=
+  match toks with
+  | t :: mt :: mh :: ll :: n :: rest =>
+    match terr? t, terr? mt, floatBits? mh, bool? ll, n.toNat? with
+    | some t, some mt, some mh, some ll, some n =>
+      match parseCalls n rest with
+      | some (calls, m :: rest') =>
+        match m.toNat? >>= fun m => parseQueries m rest' with
+        | some qs =>
+          match Wind.init fpow flog tpFloat Wind.genTable 10.0 t mt mh ll with
+          | .error e => showErr e
+          | .ok s0 =>
+            let (status, s) := runCalls s0 calls
+            let c := s.cfg
+            let nums := [c.metH, c.blh, c.exp, c.z0, c.metBlh, c.metExp, c.metZ0, s.powDen, s.logDen]
+            let res := qs.map fun q =>
+              match Wind.calculateWind fpow flog s q.1 q.2 with
+              | .ok x => showFloatBits x
+              | .error e => showErr e
+            s!"ok [{status}] {c.terrain} {c.metTerrain} {showBool c.logLaw} " ++
+              joinSp (nums.map showFloatBits) ++ " | " ++ joinSp res
+        | none => "bad-op"
+      | _ => "bad-op"
+    | _, _, _, _, _ => "bad-op"
+  | _ => "bad-op"
+
+def findTable (name : String) : Option Lazy.ClassTable := Gen.LazyDeps.all.find? (·.name == name)
+
+def parseTOp (s : String) : Option Lazy.TOp :=
+  if s.startsWith "g" then Lazy.TOp.get <$> (s.drop 1).toNat?
+  else if s.startsWith "s" then Lazy.TOp.put <$> (s.drop 1).toNat?
+  else none
+
+def showVerdict : Lazy.Verdict → String
+  | .ok => "ok" | .stale => "stale" | .alias e => s!"alias:{e}" | .none => "none" | .unset => "unset"
+
+def handle (toks : List String) : String :=
+  match toks with
+  | "wind" :: rest => wind rest
+  | "tm" :: cls :: ops =>
+    match findTable cls, ops.mapM parseTOp with
+    | some t, some ops => joinSp ((Lazy.runT t Lazy.TState.empty ops).map showVerdict)
+    | _, _ => "bad-op"
+  | ["check", cls] =>
+    match findTable cls with
+    | some t => joinSp ([t.oneExpr, t.selfFill, t.guardOwn, t.resetsOk, t.initOk].map showBool)
+    | none => "bad-op"
+  | ["windcheck"] => joinSp ([Wind.writesMatch Gen.Wind.setterTable, Wind.needsMatch, Wind.TableOk Wind.genTable].map showBool)
+  | _ => "bad-op"
+
 end DrvC18
 
 def main : IO Unit := Drv.run DrvC18.handle
